@@ -14,7 +14,7 @@ def main():
     chk.repo_hash = prog.repo_hash
     chk.assumptions += COMMON_ASSUMPTIONS
     for T in tr.all_transitions():
-        if T.kind in ('create-topic', 'create-sub', 'create-snapshot', 'delete-topic', 'seek'):
+        if T.kind in ('create-topic', 'create-sub', 'create-snapshot', 'delete-topic'):
             continue     # do not touch deliveries at all (covered by C02 independence)
         fs = [O.c03_finality]
         if T.kind == 'ack':
